@@ -719,6 +719,14 @@ def to_seq(ctx: Ctx, v, like: SymSeq = None) -> SymSeq:
                     if isinstance(p, SymBytes):
                         raise Unsupported("payload-kind Any in header list")
                     return p.e
+                from .sym import SymOpt as _SymOpt
+
+                if isinstance(x, _SymOpt):
+                    # an Optional that the path has decided to be present (it was tested before
+                    # being stored): its value
+                    if ctx.check(x.is_none) == z3.unsat:
+                        return str_to_z3(x.value)
+                    raise Unsupported("possibly-None value in header list")
                 return str_to_z3(x)
 
             units.append(z3.Unit(Pair.mk(comp(it[0]), comp(it[1]))))
